@@ -2986,3 +2986,138 @@ func checkLivePredicates(r *Run, rule string, names ...string) {
 			"the predicate reads a committed version of the store (at "+bad+"): a record written earlier in the same block (by a transaction or by the BeginBlock hook) is not seen, so the guard lets a transaction through that the current state forbids", bad)
 	}
 }
+
+// ---- C19.status -----------------------------------------------------------------------------------------------------
+//
+// The end-of-block election writes each examined validator's active flag whenever it differs from the election outcome.
+// The allegation handlers admit reporters and voters by that flag, so the write must not depend on anything else about the
+// validator: in particular a validator that lost all its power (and is being deleted) must still be flagged inactive.
+// Structural form (as C10.lastactive): whichever way any test of the validator's own power goes, SetValidatorStatus stays
+// reachable.
+func checkStatusWrite(r *Run) {
+	p := r.P
+	fn := p.MustFn(fnGetEndBlock)
+	call := firstCallIn(fn, "(*data/evidence.EvidenceStore).SetValidatorStatus")
+	if call == nil {
+		r.Viol("C19.status", fname(fn), "active flag maintenance", "GetEndBlockUpdate no longer writes the validators' active flag", p.pos(fn.Pos()), nil)
+		return
+	}
+	isPower := func(y ssa.Value) bool {
+		pa := pathOf(y)
+		al, ok := pa.Root.(*ssa.Alloc)
+		return ok && tname(al.Type()) == "*identity.Validator" && (pa.FieldString() == "Power" || strings.HasSuffix(pa.FieldString(), ".Power"))
+	}
+	bad := ""
+	for _, pol := range []int{+1, -1} {
+		pol := pol
+		var at string
+		edges := condEdges(fn, func(cond ssa.Value, iff *ssa.If) int {
+			if derivesFrom(cond, isPower) {
+				at = p.ipos(iff)
+				return pol
+			}
+			return 0
+		})
+		if len(edges) > 0 && !reachWithout(fn, edges)[call.Block()] {
+			bad = at
+		}
+	}
+	r.Check(bad == "", "C19.status", fname(fn), "the active flag is written whatever the validator's power is", "SetValidatorStatus is reachable on both outcomes of every test of validator.Power",
+		"the active flag is not updated for some values of the validator's power (test at "+bad+"): a validator that left the set keeps IsActive = true and can still open and vote on allegations", bad)
+	// the flag written is the election outcome
+	okArg := false
+	if len(call.Call.Args) >= 3 {
+		if ph, isPhi := call.Call.Args[2].(*ssa.Phi); isPhi {
+			okArg = true
+			for _, e := range ph.Edges {
+				if _, isC := boolConst(e); !isC {
+					if _, isPhi2 := e.(*ssa.Phi); !isPhi2 {
+						okArg = false
+					}
+				}
+			}
+		}
+	}
+	r.Check(okArg, "C19.status", fname(fn), "the flag written is the election outcome", "SetValidatorStatus(addr, elected, height) with the elected flag of this iteration",
+		"the active flag written is not the outcome of this block's election", p.ipos(call))
+}
+
+// ---- C07.withstate --------------------------------------------------------------------------------------------------
+//
+// C07.aim treats `x.WithState(s)` as "x now points at s" even where the caller drops the result (most callers do). That
+// is an assumption about every WithState method, checked here as sibling agreement: each one aims its receiver in place
+// (stores the state into the receiver, or hands it to the WithState of a part of the receiver) and returns the receiver.
+// A WithState that returns a re-aimed copy leaves the shared object pointing at the previous state for every caller that
+// ignores the result: consensus code then writes into (or reads from) the mempool state.
+func checkWithStateInPlace(r *Run, rule string, only ...string) {
+	p := r.P
+	n := 0
+	for _, fn := range sortedFns(p.Fns) {
+		if fn.Blocks == nil || !inRepo(fn) || fn.Name() != "WithState" || fn.Signature.Recv() == nil || len(fn.Params) != 2 {
+			continue
+		}
+		if tname(fn.Params[1].Type()) != "*storage.State" {
+			continue
+		}
+		if pk := fnPkg(fn); pk == nil || strings.Contains(pk.Path(), "/test") {
+			continue
+		}
+		if len(only) > 0 {
+			keep := false
+			for _, o := range only {
+				if strings.Contains(fname(fn), o) {
+					keep = true
+				}
+			}
+			if !keep {
+				continue
+			}
+		}
+		recv, st := fn.Params[0], fn.Params[1]
+		if _, isPtr := recv.Type().Underlying().(*types.Pointer); !isPtr {
+			continue // a value receiver cannot be aimed in place; its callers necessarily use the result
+		}
+		n++
+		fromState := func(v ssa.Value) bool { return derivesFrom(v, func(y ssa.Value) bool { return y == ssa.Value(st) }) }
+		aims := false
+		allInstrs(fn, func(ins ssa.Instruction) {
+			switch x := ins.(type) {
+			case *ssa.Store:
+				if pa := pathOf(x.Addr); pa.Root == ssa.Value(recv) && len(pa.Fields) > 0 && fromState(x.Val) {
+					aims = true
+				}
+			case *ssa.MapUpdate:
+				if pa := pathOf(x.Map); pa.Root == ssa.Value(recv) && fromState(x.Value) {
+					aims = true
+				}
+			case ssa.CallInstruction:
+				c := x.Common()
+				args := c.Args
+				if c.IsInvoke() {
+					args = append([]ssa.Value{c.Value}, args...)
+				}
+				if len(args) >= 2 && (pathOf(args[0]).Root == ssa.Value(recv) || derivesFrom(args[0], func(y ssa.Value) bool { return y == ssa.Value(recv) })) {
+					for _, a := range args[1:] {
+						if fromState(a) {
+							aims = true
+						}
+					}
+				}
+			}
+		})
+		retOK := true
+		for _, ret := range returnsOf(fn) {
+			for _, v := range ret.Results {
+				pa := pathOf(v)
+				if pa.Root != ssa.Value(recv) || len(pa.Fields) != 0 {
+					retOK = false
+				}
+			}
+		}
+		r.Check(aims && retOK, rule, fname(fn), "WithState aims the receiver in place and returns it", "the state is stored into the receiver (or passed to a part of it) and every return is the receiver",
+			"this WithState does not re-aim its receiver in place (or returns another object): callers that drop the result - block hooks, Action(), the EVM adapter - keep using the object aimed at the previous state, so consensus execution reads or writes the mempool state (or a state that is never committed)", p.pos(fn.Pos()))
+	}
+	if (len(only) == 0 && n < 15) || n == 0 {
+		fail("%s: only %d WithState methods found", rule, n)
+	}
+}
